@@ -553,9 +553,9 @@ func c13XMLStream(r *gen.Rng, w *c13World, pos []*c13Pos, thorough bool) []*c13R
 	add("xml-markup", "<"+w.M.Ident()+` a="1" a="2">`+"</"+w.M.Ident()+">")
 	add("xml-markup", "")
 	add("xml-markup", "just text")
-	depths := []int{2000, 12000}
+	depths := []int{500, 2000}
 	if thorough {
-		depths = append(depths, 200000)
+		depths = append(depths, 12000, 200000)
 	}
 	for _, p := range pos {
 		if p.kind == "cont" && len(p.jpath) == 1 {
